@@ -1019,6 +1019,15 @@ class Walker:
                 d_, rr_, fn_ = callee(t)
                 for ai, a in enumerate(t.get("args", [])):
                     if a.get("k") in ("copy", "move") and not a["place"]["p"] and strip_lt(self.body.locals[a["place"]["l"]]["ty"]).startswith("&mut "):
+                        # `&mut it` of a local that itself holds no mutable access to anything (an iterator over
+                        # shared references): whatever the callee writes, it is that local
+                        dd = se.defs.get(a["place"]["l"], [])
+                        if len(dd) == 1 and dd[0][0] == "stmt":
+                            rv_ = self.body.blocks[dd[0][1]]["stmts"][dd[0][2]]["rv"]
+                            if rv_.get("k") == "ref" and not rv_["place"]["p"]:
+                                lty = strip_lt(self.body.locals[rv_["place"]["l"]]["ty"])
+                                if "&mut" not in lty and "Cell" not in lty and "*mut" not in lty and rv_["place"]["l"] > self.body.argc:
+                                    continue
                         ms = self.modset(rr_, ai + 1) if (self.modset is not None and rr_ is not None) else None
                         if ms is None or (set(ms) & used):
                             return False
